@@ -407,12 +407,13 @@ def rename_rules(r, R):
             continue
         e = ren[0]
         bound = strip(e.args[0][1], mir.TRANSPARENT_CALLS)
-        ident_locals = set()
+        ident_locals = []
         for fe in fields:
             t = strip(fe.args[0][1], mir.TRANSPARENT_CALLS)
-            ident_locals.add(t)
+            if not any(mir.same_place_term(t, x) for x in ident_locals):
+                ident_locals.append(t)
         ok_ident = len(ident_locals) == 1
-        ident = next(iter(ident_locals))
+        ident = ident_locals[0]
         # guard
         deps = {(a, s) for (a, s) in b.transitive_control_deps(e.site.bb) if a in loop["blocks"] and a != b.succs(loop["next"].bb)[0]}
         guard_ok = False
@@ -470,7 +471,7 @@ def constructor_rules(r, lib):
             continue
         from .common import look_through_private
         b = look_through_private(lib, lib.bodies[path])
-        effects = [cname(cs.node) for cs in b.calls() if cname(cs.node) not in (
+        effects = [cname(cs.node) for cs in b.calls() if cname(cs.node) not in ("std::string::String::new",) and cname(cs.node) not in (
             "std::string::ToString::to_string", "std::convert::Into::into", "std::convert::From::from", "std::borrow::ToOwned::to_owned",
             "std::clone::Clone::clone", "std::string::String::new", "std::string::String::from")]
         aggs = [s for s in b.assigns() if s.node["rv"]["k"] == "agg" and s.node["rv"].get("adt") == "options::Options"]
@@ -479,6 +480,23 @@ def constructor_rules(r, lib):
             writes = [s for s in b.assigns() if s.node["place"]["p"] and mir.place_fields(b.canon(s.node["place"]))[-1:] and
                       mir.place_fields(b.canon(s.node["place"]))[-1][0] == "options::Options"]
             names = sorted({mir.place_fields(b.canon(s.node["place"]))[-1][1] for s in writes})
+            if not writes and len(aggs) == 1:
+                # struct-update form: Self { <field>: copy of the argument, ..self }
+                rv = aggs[0].node["rv"]
+                changed = []
+                same = True
+                for fname, o in zip(rv["fields"], rv["ops"]):
+                    tv = strip(term_of(b, o), mir.VALUE_PRESERVING)
+                    if tv[0] == "proj" and strip(tv[1]) == ("arg", 1) and [e[3] for e in tv[2] if e != "*" and e[0] == "f"] == [fname]:
+                        continue
+                    if tv == ("arg", 2):
+                        changed.append(fname)
+                    else:
+                        same = False
+                okb = same and len(changed) == 1 and not effects and path.endswith("::" + changed[0])
+                r.ob("R10.5.builder", path, okb, "rebuilds Self with exactly the field `%s` replaced by a copy of its argument" % changed[0] if okb else
+                     "builder (struct-update form) changes fields %s" % changed, site=mir.line_of(b.span), key="R10.5|builder|%s" % path)
+                continue
             ok = len(names) == 1 and not effects and path.endswith("::" + names[0])
             if ok:
                 v = strip(term_of(b, writes[0].node["rv"]["op"]), mir.VALUE_PRESERVING) if writes[0].node["rv"]["k"] == "use" else ("?",)
@@ -492,7 +510,7 @@ def constructor_rules(r, lib):
                 rv = aggs[0].node["rv"]
                 for name, o in zip(rv["fields"], rv["ops"]):
                     t = strip(term_of(b, o), mir.VALUE_PRESERVING)
-                    vals[name] = t[1] if t[0] == "const" else (t[2] if t[0] == "agg" else None)
+                    vals[name] = t[1] if t[0] == "const" else (t[2] if t[0] == "agg" else ("" if t[0] == "call" and t[1] == "std::string::String::new" else None))
                 ok = all(v is not None for v in vals.values())
             r.ob("R10.5.preset-is-constant", path, ok, "plain constructor of constants %s" % vals if ok else "preset does more than build a constant Options (%s)" % effects,
                  site=mir.line_of(b.span), key="R10.5|preset|%s" % path)
